@@ -51,8 +51,8 @@ def run(ctx):
                     + ('; 2 workers ring fast path + FQ; kHeavy; nested cascade set' if thorough else ''))
     rng = random.Random(ctx.seed * 7919 + 2)
     g = tc.Gen(rng)
-    n = 6 if thorough else 2
-    scens = [g.single(throws=0.1, cancel=0.2, nested=0.4) for _ in range(60 if thorough else 8)]
+    n = 6 if thorough else 3
+    scens = [g.single(throws=0.1, cancel=0.2, nested=0.4) for _ in range(60 if thorough else 14)]
     rz = [g.single(throws=0.0, cancel=0.1, nested=0.0, pools=(1, 2, 3), two=1.0, resize=True) for _ in range(20 if thorough else 2)]
     r = tc.run_scenarios(ctx, exe, [
         ('fixed programs', FIXED if thorough else FIXED[ctx.seed % 2::2], n),
